@@ -259,6 +259,7 @@ def run(repo, rep):
                   '%s prints a value from inside a contextual evaluator (line %s): that runs at layout time, after '
                   'every visit has ended' % (f.key, [c.lineno for c in rec]), nontrivial=True)
     rep.floor('C13.e', n, 5)
+    rep.floor('C13.f', _marker(repo, rep), 1)
 
 
 def _short(g):
@@ -313,3 +314,22 @@ def _consumed(g, par, f, consumers, transparent, pkg_consumers, depth=0):
     if isinstance(p, ast.Expr):
         return False, 'is discarded'
     return False, 'flows into %s' % type(p).__name__
+
+
+def _marker(repo, rep):
+    m = repo.module('prettyprinter')
+    f = m.funcs.get('_pretty_recursion')
+    if f is None:
+        for g in m.funcs.values():
+            if 'recursion' in g.name.lower():
+                f = g
+    n = 1
+    if f is None:
+        rep.fail('C13.f', 'marker:exists', m.relpath, 'recursion marker function vanished')
+        return n
+    v = f.params[0]
+    txt = src(f.node)
+    rep.check('type(%s).__name__' % v in txt and 'id(%s)' % v in txt and 'Recursion' in txt, 'C13.f', 'marker:names-type-and-identity', f.where,
+              'marker names the type and the identity of the value', 'the recursion marker no longer mentions type(value).__name__ and id(value)',
+              nontrivial=True)
+    return n
